@@ -31,7 +31,7 @@ static int mv_by_name(const std::string &s) {
     fprintf(stderr, "unknown mpi variant %s\n", s.c_str()); exit(2);
 }
 
-struct Cfg { std::vector<int> variants; std::vector<int> Ps; int bound = 1; int layout_mode = 0; uint64_t max_exec = 500000; bool baton_rev = false; int outcome_bound = 1 << 30; };
+struct Cfg { std::vector<int> variants; std::vector<int> Ps; int bound = 1; int layout_mode = 0; uint64_t max_exec = 500000; bool baton_rev = false; int outcome_bound = 1 << 30; int subcomm = 0; };
 
 // layout menu: permutation number -> slot order. 0 = identity (allocation order = address order)
 static std::vector<std::vector<int>> layout_menu(int m, int mode) {
@@ -69,6 +69,7 @@ static std::unique_ptr<B> build_with_layout(const vg::EdgeList &el, const std::v
 struct Verdict { bool ok = true; std::string cls, msg; };
 
 static std::string g_last_state;
+static int g_subcomm = 0;
 
 static Verdict run_and_check(const Cfg &cfg, int var, int P, const vg::EdgeList &el, const std::vector<double> &w, int dim,
         const vg::RefResult<double> &ref, bool rev_baton, uint64_t *collectives, uint64_t *maxout, uint64_t *multi, int *layout_dev, bool verbose = false) {
@@ -82,7 +83,10 @@ static Verdict run_and_check(const Cfg &cfg, int var, int P, const vg::EdgeList 
     boost::mpi::vmpi::World world(P);
     if (rev_baton) std::reverse(world.baton_order.begin(), world.baton_order.end());
     bool ok = boost::mpi::vmpi::run_ranks(world, [&](int r) {
-        boost::mpi::communicator comm;
+        // --subcomm: the entry points take "a communicator", not "the world": 1 = the world split by rank parity (two
+        // independent computations side by side), 2 = every rank alone in its own communicator (size 1 inside a larger job)
+        boost::mpi::communicator world_comm;
+        boost::mpi::communicator comm = cfg.subcomm == 1 ? world_comm.split(r % 2) : cfg.subcomm == 2 ? world_comm.split(r) : world_comm;
         auto wm = boost::get(boost::edge_weight, gs[r]->g);
         auto out = std::back_inserter(cycles[r]);
         switch (var) {
@@ -99,19 +103,25 @@ static Verdict run_and_check(const Cfg &cfg, int var, int P, const vg::EdgeList 
     g_last_state = boost::mpi::vmpi::describe(world);
     if (!ok) { v.ok = false; v.cls = "deadlock"; v.msg = "no rank can run: " + world.deadlock_desc; return v; }
     if (!world.rank_errors.empty()) { v.ok = false; v.cls = "exception"; v.msg = world.rank_errors[0]; return v; }
-    for (int r = 1; r < P; ++r) if (!cycles[r].empty()) { v.ok = false; v.cls = "nonroot-output"; v.msg = "rank " + std::to_string(r) + " emitted " + std::to_string(cycles[r].size()) + " cycles"; return v; }
-    auto chk = vb::check_cycle_set<W>(*gs[0], w, cycles[0], dim);
-    if (verbose) printf("P=%d rank0 returned=%s emitted_total=%s weights=%s count=%zu %s | %s\n", P, vg::fmt_w(ret[0]).c_str(), vg::fmt_w(chk.total).c_str(), vb::vec_str(chk.weights).c_str(), chk.masks.size(), chk.ok ? "valid" : chk.msg.c_str(), g_last_state.c_str());
-    if (!chk.ok) { v.ok = false; v.cls = chk.cls; v.msg = chk.msg; return v; }
-    if (ret[0] != chk.total) { v.ok = false; v.cls = "return-mismatch"; v.msg = "rank 0 returned " + vg::fmt_w(ret[0]) + " but its cycles weigh " + vg::fmt_w(chk.total); return v; }
-    std::vector<double> ws = chk.weights; std::sort(ws.begin(), ws.end());
-    if (chk.total != ref.total) { v.ok = false; v.cls = "not-minimum"; v.msg = "rank 0 basis weight " + vg::fmt_w(chk.total) + ", optimum " + vg::fmt_w(ref.total); }
-    else if (ws != ref.weights) { v.ok = false; v.cls = "weight-vector"; v.msg = "sorted cycle weights " + vb::vec_str(ws) + " differ from reference " + vb::vec_str(ref.weights); }
+    // leaders = rank 0 of each communicator the entry point ran on (the only ranks that may report a basis)
+    std::vector<int> leaders;
+    for (int r = 0; r < P; ++r) { bool lead = cfg.subcomm == 0 ? r == 0 : cfg.subcomm == 1 ? r < 2 : true; if (lead) leaders.push_back(r); }
+    for (int r = 0; r < P; ++r) if (std::find(leaders.begin(), leaders.end(), r) == leaders.end() && !cycles[r].empty()) { v.ok = false; v.cls = "nonroot-output"; v.msg = "rank " + std::to_string(r) + " emitted " + std::to_string(cycles[r].size()) + " cycles"; return v; }
+    for (int L : leaders) {
+        std::string who = cfg.subcomm ? "world rank " + std::to_string(L) + " (rank 0 of its communicator)" : std::string("rank 0");
+        auto chk = vb::check_cycle_set<W>(*gs[L], w, cycles[L], dim);
+        if (verbose) printf("P=%d %s returned=%s emitted_total=%s weights=%s count=%zu %s | %s\n", P, who.c_str(), vg::fmt_w(ret[L]).c_str(), vg::fmt_w(chk.total).c_str(), vb::vec_str(chk.weights).c_str(), chk.masks.size(), chk.ok ? "valid" : chk.msg.c_str(), g_last_state.c_str());
+        if (!chk.ok) { v.ok = false; v.cls = chk.cls; v.msg = who + ": " + chk.msg; return v; }
+        if (ret[L] != chk.total) { v.ok = false; v.cls = "return-mismatch"; v.msg = who + " returned " + vg::fmt_w(ret[L]) + " but its cycles weigh " + vg::fmt_w(chk.total); return v; }
+        std::vector<double> ws = chk.weights; std::sort(ws.begin(), ws.end());
+        if (chk.total != ref.total) { v.ok = false; v.cls = "not-minimum"; v.msg = who + " basis weight " + vg::fmt_w(chk.total) + ", optimum " + vg::fmt_w(ref.total); return v; }
+        else if (ws != ref.weights) { v.ok = false; v.cls = "weight-vector"; v.msg = who + ": sorted cycle weights " + vb::vec_str(ws) + " differ from reference " + vb::vec_str(ref.weights); return v; }
+    }
     return v;
 }
 
 static std::string cs_of(const vg::EdgeList &el, const std::vector<double> &w, int var, int P, int lm, const std::string &choices) {
-    return vg::case_string(el, w, std::string("variant=") + mv_name(var) + ";P=" + std::to_string(P) + ";layouts=" + std::to_string(lm) + ";choices=" + choices);
+    return vg::case_string(el, w, std::string("variant=") + mv_name(var) + ";P=" + std::to_string(P) + ";layouts=" + std::to_string(lm) + (g_subcomm ? ";subcomm=" + std::to_string(g_subcomm) : std::string()) + ";choices=" + choices);
 }
 
 static void explore_input(vr::Runner &R, const Cfg &cfg, const vg::EdgeList &el, const std::vector<double> &w, const std::vector<uint64_t> &cyc, int dim) {
@@ -164,6 +174,7 @@ int main(int argc, char **argv) {
     for (auto &s : vr::split(A.get("P", "1,2,3"), ',')) cfg.Ps.push_back(atoi(s.c_str()));
     cfg.bound = (int) A.geti("bound", 1);
     cfg.layout_mode = (int) A.geti("layouts", 0);
+    cfg.subcomm = (int) A.geti("subcomm", 0); g_subcomm = cfg.subcomm;
     cfg.max_exec = (uint64_t) A.geti("max-exec", 500000);
     cfg.baton_rev = A.has("baton-rev");
     if (A.has("outcome-bound")) cfg.outcome_bound = (int) A.geti("outcome-bound", 1);
@@ -177,6 +188,7 @@ int main(int argc, char **argv) {
         auto pc = vg::parse_case(A.get("replay-case"));
         int var = mv_by_name(pc.get("variant")); int P = atoi(pc.get("P", "2").c_str());
         cfg.layout_mode = atoi(pc.get("layouts", "0").c_str());
+        cfg.subcomm = g_subcomm = atoi(pc.get("subcomm", "0").c_str());
         int dim = vg::cycle_space_dim(pc.g);
         auto cyc = vg::all_simple_cycles(pc.g);
         auto ref = vg::reference_mcb<double>(cyc, pc.w, dim); std::sort(ref.weights.begin(), ref.weights.end());
